@@ -23,6 +23,21 @@ def gen_plan(rng, tier: str, idx: int) -> dict:
                           families=["gamma", "exponential", "beta", "lognormal", "halfnormal", "invgamma", "normal", "normal"])
         if any(it.get("transform") for it in spec):
             break
+    # "initial values in the support" written as integers (Var(2, dist), np.array([1, 2, 3])): the new
+    # variable starts at the real-valued inverse image, whatever the dtype of the initial value
+    for it in spec:
+        # (only where the bijector is Exp: TFP's Softplus and every bijector with float parameters
+        # refuse integer input themselves, before liesel is involved)
+        tr_ = it.get("transform")
+        exp_bij = tr_ and ((tr_["how"] == "instance" and tr_["bij"] == "exp") or (tr_["how"] in ("default", "auto") and it["dist"]["fam"] == "lognormal"))
+        idx_ = spec.index(it)
+        referenced = any(r_.get("i") == idx_ for other in spec for r_ in M.item_refs(other))
+        # (and only variables nothing else reads: as a parameter of another TFP object an int is refused, too)
+        if exp_bij and it.get("vk") == "pos" and not referenced and rng.random() < 0.6:
+            if not (it.get("shape") or []):
+                # a plain Python int (typed int32 arrays are refused by TFP's own bijectors)
+                it["val"] = rng.randint(1, 4)
+                it["int_init"] = True
     ops = C01.interleave(rng, spec, rng.randint(1, 3), faults=False, max_ops=rng.randint(4, 20))
     return {"spec": spec, "ops": ops, "user": {}, "per_obs_twin": False}
 
